@@ -175,6 +175,23 @@ func atoi(s string) int {
 	return n
 }
 
+// NamedPV declares its name on the pointer receiver and is published by
+// value: the value does not implement TypeNamer, so every API must use the
+// reflection name for it.  NamedPVP is the same shape published as a pointer.
+type NamedPV struct {
+	ID int    `json:"id"`
+	S  string `json:"s"`
+}
+
+func (*NamedPV) EventTypeName() string { return "c15.pointer-named-published-by-value.v1" }
+
+func init() {
+	shapes = append(shapes,
+		mkShape("namer-pointer-published-as-value", true, func(id int, s string) NamedPV { return NamedPV{id, s} }, func(e NamedPV) int { return e.ID }),
+		mkShape("namer-pointer-same-type-as-pointer", true, func(id int, s string) *NamedPV { return &NamedPV{id, s} }, func(e *NamedPV) int { return e.ID }),
+	)
+}
+
 func init() {
 	shapes = append(shapes, localShapeA(), localShapeB(),
 		mkShape("namer-slice", true, func(id int, s string) Items { return Items{fmt.Sprint(id), s} }, func(e Items) int {
